@@ -112,6 +112,13 @@ def find_grad_validators(index) -> dict:
         def classify(t):
             if isinstance(t, ast.Attribute) and isinstance(t.value, ast.Name) and t.value.id == subject and t.attr in ATOMS:
                 return (ATOMS[t.attr], True)
+            # `x.grad_fn is None`: no autograd function produced x — the definition of a leaf
+            if isinstance(t, ast.Compare) and len(t.ops) == 1 and isinstance(t.ops[0], (ast.Is, ast.IsNot)):
+                l_, r_ = t.left, t.comparators[0]
+                if isinstance(l_, ast.Constant) and l_.value is None:
+                    l_, r_ = r_, l_
+                if isinstance(r_, ast.Constant) and r_.value is None and isinstance(l_, ast.Attribute) and l_.attr == "grad_fn" and isinstance(l_.value, ast.Name) and l_.value.id == subject:
+                    return ("L", isinstance(t.ops[0], ast.Is))
             return None
 
         cfg = cfg_of(fi.node)
@@ -140,7 +147,7 @@ def find_grad_validators(index) -> dict:
         a = set()
         for t in tests:
             a |= attrs_of(t, fi)
-        if a & {"is_leaf", "retains_grad", "requires_grad"}:
+        if a & {"is_leaf", "retains_grad", "requires_grad"}:  # (grad_fn alone does not make a function a validator)
             found[fi.qualname] = strength(fi)
     return found
 
